@@ -9,7 +9,7 @@
    Otlp/Ids.v, whose composition is compared character for character with the real ResourceID/ScopeID on every run; the
    unique decodability of the strconv/hex atom renderers is its (explicit) hypothesis. *)
 From Verif Require Import Base.ListX Obf.Obfuscate Otlp.Equiv Otap.Tables Otap.Attrs.
-From Verif Require Otlp.Ids.
+From Verif Require Otlp.Ids Otlp.Atoms.
 
 (* Attribute tables (resource, scope, span: 16-bit parents; event, link: 32-bit): whatever order the sorter produced,
    every parent gets back exactly its own attributes. *)
@@ -63,3 +63,15 @@ Theorem C01_identifiers_injective : forall D q fi fd fb fx fu canon,
   (forall v v' r r', Ids.T r -> Ids.T r' -> Ids.ev D q fi fd fb fx v ++ r = Ids.ev D q fi fd fb fx v' ++ r' -> v = v' /\ r = r').
 Proof. exact Ids.ids_injective. Qed.
 Print Assumptions C01_identifiers_injective.
+
+(* ... and of those hypotheses only strconv.Quote, strconv.FormatFloat and hex.EncodeToString remain assumed: decimal
+   FormatInt / FormatUint and FormatBool are defined in Otlp/Atoms.v (and compared with the real functions on every run)
+   and their unique decodability is proved there. *)
+Theorem C01_identifier_atoms : forall D q fd fx,
+  (forall a b r r', q a ++ r = q b ++ r' -> a = b /\ r = r') ->
+  (forall a, exists t, q a = 34 :: t) ->
+  (forall (a b : D) r r', Ids.T r -> Ids.T r' -> fd a ++ r = fd b ++ r' -> a = b /\ r = r') ->
+  (forall a b r r', Ids.T r -> Ids.T r' -> fx a ++ r = fx b ++ r' -> a = b /\ r = r') ->
+  Ids.atoms_ok D q Atoms.fmt_int fd Atoms.fmt_bool fx Atoms.fmt_uint.
+Proof. exact Atoms.atoms_ok_reduced. Qed.
+Print Assumptions C01_identifier_atoms.
